@@ -344,3 +344,9 @@ fn c08_residual_from_parts_sums() {
     kani::cover!(true_sum > u32::MAX as usize);
     kani::cover!(true_sum < 100);
 }
+
+/// Test hook: overrides the cached quotient sum (used to build candidate subframes of arbitrary
+/// reported size for the selection-logic units).
+pub(crate) fn set_sum_quotients(r: &mut Residual, v: usize) {
+    r.sum_quotients = v;
+}
